@@ -21,7 +21,7 @@ REAL = common.REAL_DECODER
 ASSUMPTIONS = ["reference model + pinned layout snapshot define region accounting (DESIGN.md 4.2)",
                "where the statement leaves a choice (several regions crossed at once, input ending inside the skip, "
                "trailing structure events) every admissible report is accepted"]
-TIERS = {"quick": {"runs": 40000, "budget": 75}, "thorough": {"runs": 900000, "budget": 780}}
+TIERS = {"quick": {"runs": 40000, "budget": 150}, "thorough": {"runs": 900000, "budget": 780}}
 DOMAIN = oracle.SIZE_KINDS
 
 
